@@ -464,6 +464,8 @@ def check_listing(rep, repo, f, sec, sort, line_items, pa_c):
                         break
             elif equiv(c, acs) or equiv(c, cnt):
                 r = not noassign
+            elif is_own_group(c, key, j):
+                r = not noassign                  # truthiness of the list of assignees of agent j
             if r is None:
                 unknown_conds.append(c)
                 return None
@@ -481,10 +483,23 @@ def check_listing(rep, repo, f, sec, sort, line_items, pa_c):
             rep.inconclusive(rule, f.where, 'conditions of the %s line are tests for "nobody assigned"' % name, got=show(unknown_conds[0])[:120])
             return
         if bad is not None:
-            rep.inconclusive(rule, f.where, 'the %s listing is inside the aggregate algebra' % name, got=bad)
+            rep.inconclusive(rule, f.where, 'the %s listing is inside the aggregate algebra' % name, got=bad + ' | line: ' + show(line)[:600] + ' | want: ' + show(want)[:600])
             return
         rep.fail(rule, f.where, '%s line %s: label = index + 1, assignees = pairs scattered by their own %s, occupancy / capacity%s of the same %s' % (name, case, key, ' / target' if sort == 'L' else '', name),
                  got=show(line)[:400], want=show(want)[:400], construct='%s line %s' % (name, case))
+
+
+def is_own_group(c, key, j):
+    """c == GROUPS[j] (or len of it) where GROUPS collects the matched pairs by their own <key>"""
+    from ..canon import group_elem
+    if c[0] == 'call' and c[1] == S('len') and len(c[2]) == 1:
+        c = c[2][0]
+    ge = group_elem(c)
+    if ge is None:
+        return False
+    ch, k, val, jj = ge
+    b = ch[-1][0]
+    return jj == j and k == A(b, key) and val == b
 
 
 def student_sel(arr):
@@ -493,6 +508,16 @@ def student_sel(arr):
         return arr
     if arr[0] == 'array':
         n, i, v = arr[1], arr[2], arr[3]
+        if v[0] == 'ite' and v[1][0] == 'cmp' and v[1][1] in ('In', 'NotIn') and v[1][2] == i:
+            # lines[i] = F(D[i]) if i in D else G(i)   with D = {key(p): val(p)} filled pair by pair (last write wins, like setidx)
+            D = v[1][3]
+            a, b = (v[2], v[3]) if v[1][1] == 'In' else (v[3], v[2])
+            if D[0] == 'accum' and D[1] == ('dict', ()) and len(D[2]) == 1 and D[2][0][0] == 'setidx' and not contains(b, lambda x: x == D):
+                op, key, val, ch = D[2][0]
+                from ..canon import replace
+                line = replace(a, I(D, i), val)
+                if not contains(line, lambda x: x == D):
+                    return ACC(('array', n, i, b), (('setidx', key, canon(line), ch),))
         if v[0] == 'ite':
             c, a, b = v[1], v[2], v[3]
             neg = False
